@@ -19,4 +19,8 @@ def handle : List Sx → Sx
 def handleUnblocked : List Sx → Sx
   | _ => Sx.ok (.list (unblockedMutators.map fun (t, m) => .list [.str t, .str m]))
 
+/-- request names served by this module (collected into `JinjaV.Wire.All` by tools/gen_wire_all.py) -/
+def handlers : List (String × (List Sx → Sx)) :=
+  [("sbx", handle), ("sbx-unblocked", handleUnblocked)]
+
 end JinjaV.Wire.Sandbox
